@@ -23,7 +23,7 @@ PROPS['C16'] = dict(
                  'a new bank reads as 128 instruments with exactly the blank flag set and every other member zero',
                  'a bank image that lists one identifier twice leaves the later entry; a refused image leaves the map and all handles as they were'],
     stages=[
-        dict(name='random', variant='asan', harness='c16_bankmap.cpp', quick=5000, thorough=60000, budget=30, cxxflags=['-O1']),
+        dict(name='random', variant='asan', harness='c16_bankmap.cpp', quick=20000, thorough=200000, budget=30, cxxflags=['-O1']),
         dict(name='exhaustive', variant='asan', harness='c16_bankmap.cpp', quick=676, thorough=17576, budget=30, opts=_c16_x, cxxflags=['-O1']),
         dict(name='exhaustive-pre', variant='asan', harness='c16_bankmap.cpp', quick=78, thorough=2028, budget=30, opts=_c16_xp, cxxflags=['-O1']),
     ],
